@@ -24,9 +24,13 @@ Definition M := summarize wavg_mask rules non_loss.
 Definition SP := summ_spec_b wavg_mask rules non_loss.
 (* dom = false: the case lies outside the property's domain (mixed-case field names); only the
    model-vs-implementation comparison applies *)
-Definition case (dom prem : bool) (t : list cell) (impl : result (list cell)) : bool * bool * bool :=
+(* metas / cm: Triangle.metadata (sorted distinct metadata) and Triangle.common_metadata of the
+   implementation, compared with the model of metadata.common_metadata folded over the list *)
+Definition case (dom prem : bool) (t : list cell) (impl : result (list cell)) (metas : list meta) (cm : meta)
+  : bool * bool * bool :=
   let m := M prem t in
-  (result_ueqb m impl,
+  (result_ueqb m impl
+   && match tri_common_metadata metas with Some x => meta_ueqb x cm | None => false end,
    negb dom || match impl with Ok out => SP prem t out | Err _ => true end,
    negb dom || match m with Ok out => SP prem t out | Err _ => true end).
 """
@@ -149,7 +153,10 @@ def run(ctx):
                               violation_data(tcells, prem, fails, info), found_input=True, finding_class=fc)
         try:
             dom = all(k == k.lower() for c in tcells for k in c.values)
-            term = f"case {str(dom).lower()} {str(prem).lower()} {ccells(tcells)}\n {S.cresult(status, res, mask_fn(tcells, prem))}"
+            from harness.coqterm import cmeta as cmeta_term
+            metas_term = "[" + ";\n  ".join(cmeta_term(m) for m in t.metadata) + "]"
+            term = (f"case {str(dom).lower()} {str(prem).lower()} {ccells(tcells)}\n {S.cresult(status, res, mask_fn(tcells, prem))}"
+                    f"\n {metas_term} {cmeta_term(t.common_metadata)}")
         except NotRepresentable:
             ctx.hist("coq:not-representable(skipped)")
             continue
@@ -185,7 +192,7 @@ def run(ctx):
                 mism.append(("coqc-failed", p.name, out[-800:], None))
                 continue
             ncase += len(body)
-            for which, lst in zip(("model != implementation", "summ_spec_b false on the implementation's output",
+            for which, lst in zip(("model != implementation (summarize or common_metadata)", "summ_spec_b false on the implementation's output",
                                    "summ_spec_b false on the model's output"), idxs):
                 for i in lst:
                     mism.append((which, p.name, i, recs[i]))
